@@ -98,7 +98,7 @@ man = {
  "engines": [{"name": "tlc", "path": "/verif/spec", "serves_properties": sorted(CLAIMS),
               "kind_free_text": "explicit TLA+ specification checked with TLC; traces recorded from the real code validated against it by TLC; TLC-generated scenarios replayed into the real code"}],
  "checks": [], "not_applicable": [],
- "notes": "See DESIGN.md. bin/check <ID> --tier quick|thorough [--replay file] is the single entry point; exit 2 = tool error. All generators drive the library through harness common::call: persistent worker thread with a 20 s watchdog, a neighbour call before the call, a fresh-thread repeat and range-API cross-checks (events `impure` / `hang` are accepted by no trace action). Known findings F1 (C20) and F2 (C08) are named actions of the trace specifications enabled from known_findings.json. Unbounded lemmas by Apalache: spec/apalache (C09, C11, C14). bin/conform checks behaviour outside the listed properties (Surface.tla) and is not registered here.",
+ "notes": "See DESIGN.md. bin/check <ID> --tier quick|thorough [--replay file] is the single entry point; exit 2 = tool error. All generators drive the library through harness common::call: persistent worker thread with a 20 s watchdog, a neighbour call before the call, a fresh-thread repeat and range-API cross-checks (events `impure` / `hang` are accepted by no trace action). The known finding F1 (C20) is a named action of the trace specification enabled from known_findings.json; ten defects (D1-D10) are repaired by fix: commits in /repo and listed there as fixed. Unbounded lemmas by Apalache: spec/apalache (C09, C11, C14). bin/conform checks behaviour outside the listed properties (Surface.tla: texts, method table, CLI date defaults) and the whole day-pipeline model (PrayerDayTrace!PipeCall, with an environment report) and is not registered here.",
 }
 hooks_file = os.path.join(V, 'tools', 'hook_commits.txt')
 if os.path.exists(hooks_file):
